@@ -30,6 +30,7 @@ SCORE_KINDS = [
     "uint",  # unsigned integer dtypes (quantised scores): differences wrap, negation is not available
     "int8wide",  # int8 spanning the whole dtype range: differences overflow
     "float16",
+    "negzero",  # scores rounded to one decimal: +0.0 and -0.0 both occur (equal as numbers, different bit patterns)
 ]
 
 
@@ -113,6 +114,10 @@ def scores(rng, min_pos=0, min_neg=0, maxn=40, kinds=None, big=False):
             pos, neg = allv[:npos], allv[npos:]
     elif kind == "float16":
         pos, neg = rng.normal(0.5, 1, npos).astype(np.float16), rng.normal(-0.5, 1, nneg).astype(np.float16)
+    elif kind == "negzero":
+        w = float(rng.choice([0.02, 0.08, 0.3]))  # narrow: most of a class is one signed zero
+        mp, mn = (float(x) for x in rng.choice([-0.02, 0.02], 2))
+        pos, neg = np.round(rng.normal(mp, w, npos), 1), np.round(rng.normal(mn, w, nneg), 1)
     elif kind == "int8wide":
         pos, neg = rng.integers(-128, 128, npos).astype(np.int8), rng.integers(-128, 128, nneg).astype(np.int8)
     elif kind == "mixed_f32_f64":
